@@ -37,8 +37,10 @@ ASSUMPTIONS = [
     'setup_block_name_index and setup_block_connection_name_index (the harness calls these after setting surfaces)',
     'column centre = the centre recorded in the geometry when centre_specified, otherwise the area centroid of the '
     'column polygon (mulformat.rst: "calculate it as the centroid of the column")',
-    'layer centres are the layer mid-points in every geometry of the family, so the documented block-centre rule '
-    '(layer centre; mid-way between layer bottom and surface in a truncated top block) has one reading',
+    'block centre elevation = the documented rule of block_centre: the layer centre as recorded (also when it is not '
+    'the mid-point), except for a surface block whose column surface is LOWER than the layer top (mid-way between layer '
+    'bottom and surface); a column surface exactly at a layer top gives a full block at the layer centre, so two full '
+    'blocks of one layer are at equal elevation',
     'block order dmplex is explored only for geometries of 3- and 4-sided columns (documented restriction)',
     'convention 1 (2-character column names) is explored only for geometries of <= 99 columns and nodes',
     'gravity cosines of tilted geometries (gdcx, gdcy non-zero) are not asserted; everything else is',
@@ -67,6 +69,9 @@ ANGLES = (0.0, 30.0, 90.0)
 SHIFT = [-37.25, 112.5, -20.5]
 TILTS = {'tiltx': (0.1, 0.0), 'tilty': (0.0, 0.2)}
 TRANSFORMS = ('id', 'rot90', 'rot30', 'shift', 'tiltx', 'tilty')
+CENTRES = ('off1', 'off2', 'off3', 'off4', 'offall')
+Z0S = (0.0, 0.5, 1.0, 2.0, 3.5, -2.0)      # vertical origins: an exact 0.0 at the top, inside layer 1, at its bottom,
+                                            # inside layer 2, at its bottom, above the top layer
 RTOL = 1e-9
 CASE_SECONDS = 120
 
@@ -197,7 +202,8 @@ def spec_from_geo(geo):
             'surfaces': [None if c.surface is None else float(c.surface) for c in cols]}
 
 
-def rect_spec(nx, ny, nz):
+def rect_spec(nx, ny, nz, z0=None):
+    z0 = ORIGIN[2] if z0 is None else z0
     xs, ys = XS[:nx], YS[:ny]
     xv = [ORIGIN[0]]
     for d in xs:
@@ -218,11 +224,11 @@ def rect_spec(nx, ny, nz):
     for i in range(nx):
         for j in range(ny - 1):
             cons.append((j * nx + i, (j + 1) * nx + i))
-    bottoms, z = [], ORIGIN[2]
+    bottoms, z = [], z0
     for t in ZS[:nz]:
         z -= t
         bottoms.append(z)
-    return {'nodes': nodes, 'cols': cols, 'cons': cons, 'top': ORIGIN[2], 'bottoms': bottoms}
+    return {'nodes': nodes, 'cols': cols, 'cons': cons, 'top': z0, 'bottoms': bottoms}
 
 
 def shipped(name):
@@ -240,10 +246,10 @@ def geom_spec(desc):
     kind = desc[0]
     if kind == 'rect':
         spec = rect_spec(*desc[1:])
-    elif kind == 'mix':
-        spec = MIX
-    elif kind == 'tq':
-        spec = TQ
+    elif kind in ('mix', 'tq'):
+        spec = MIX if kind == 'mix' else TQ
+        if len(desc) > 1:        # every elevation shifted by desc[1]
+            spec = dict(spec, top=spec['top'] + desc[1], bottoms=[b + desc[1] for b in spec['bottoms']])
     elif kind == 'mixr':
         geo = build_from_spec(MIX, 'c0')
         geo.refine([geo.columnlist[0]])
@@ -273,9 +279,10 @@ def build(desc, naming, transform):
         if desc[0] == 'file':
             geo = shipped(desc[1])
         elif naming.startswith('lib'):
-            nx, ny, nz = desc[1:]
+            nx, ny, nz = desc[1:4]
+            origin = list(ORIGIN) if len(desc) < 5 else [ORIGIN[0], ORIGIN[1], desc[4]]
             geo = mulgrids.mulgrid().rectangular(XS[:nx], YS[:ny], ZS[:nz], convention=int(naming[3]),
-                                                 atmos_type=2, origin=list(ORIGIN))
+                                                 atmos_type=2, origin=origin)
         else:
             geo = build_from_spec(geom_spec(desc), naming)
             if geo is None:
@@ -288,6 +295,13 @@ def build(desc, naming, transform):
             geo.translate(list(SHIFT))
         elif transform in TILTS:
             geo.gdcx, geo.gdcy = TILTS[transform]
+        elif transform in CENTRES:
+            # layer centres off the mid-point (legal: the LAYERS record and the layer object carry a centre)
+            which = range(1, len(geo.layerlist)) if transform == 'offall' else [int(transform[3:])]
+            for k in which:
+                if k < len(geo.layerlist):
+                    lay = geo.layerlist[k]
+                    lay.centre = lay.bottom + 0.4 * (lay.top - lay.bottom)
         elif transform != 'id':
             raise core.HarnessError('unknown transform %r' % transform)
     return geo
@@ -306,7 +320,7 @@ def surface_alphabet(geo):
             float(lays[-2].bottom) + 0.015625]
 
 
-def surface_sets(mode, ncol, pairs):
+def surface_sets(mode, ncol, pairs, nval=6):
     """Surface assignments as tuples of alphabet indices (base = 1, '= top')."""
     base = (1,) * ncol
     if mode == 'file':
@@ -315,8 +329,11 @@ def surface_sets(mode, ncol, pairs):
         return [base]
     if mode == 'prod':
         return list(itertools.product(range(6), repeat=ncol))
-    dev = [v for v in range(6) if v != 1]
+    dev = [v for v in range(nval) if v != 1]
     out = [base]
+    if mode.endswith('z'):       # also every uniform assignment
+        out += [(v,) * ncol for v in dev]
+        mode = mode[:-1]
     for i in range(ncol):
         for v in dev:
             s = list(base)
@@ -373,12 +390,17 @@ class Ctx(object):
         self.raw = R.extract(geo)
         self.st = R.Static(self.raw)
         self.alphabet = surface_alphabet(geo)
+        if (desc[0] == 'rect' and len(desc) == 5) or (desc[0] in ('mix', 'tq') and len(desc) == 2):
+            # geometries placed so that an exact 0.0 is a legal surface elevation: 0.0 and -0.0 join the alphabet
+            if 0.0 > float(geo.layerlist[-1].bottom):
+                self.alphabet = self.alphabet + [0.0, -0.0]
         self.file_surfaces = [c.surface for c in geo.columnlist]
         self.ncol = len(geo.columnlist)
         self.pairs = [(hc['a'], hc['b']) for hc in self.st.hcons]
         self.dmplex_ok = all(len(c['nodes']) in (3, 4) for c in self.raw.cols)
         self.tilted = transform in TILTS
         self.nameclass = 'digit-columns' if naming == 'c0d' else 'std'
+        self.centreclass = '|layer-centres=off-mid' if transform in CENTRES else ''
         self.atm_connection = R.fr(geo.atmosphere_connection)
         self.conv0 = geo.convention
 
@@ -611,12 +633,12 @@ def judge(geo, st, grid, announced_b, announced_c, bm, atm, order, angle, tilted
                     add('%s-cosine' % kind, rc['cls'], 'connection %r: gravity cosine %r, expected -1' % (names, lc))
             elif abs(rc['cos']) <= 1e-12:
                 if not abs(lc) <= 1e-9:
-                    add('horiz-cosine', 'equal-elevation',
+                    add('horiz-cosine', rc['cls'],
                         'connection %r between blocks at equal elevation: cosine %r' % (names, lc))
             else:
                 ntrunc += 1
                 if not abs(lc - rc['cos']) <= RTOL * abs(rc['cos']) + 1e-13 or lc == 0:
-                    add('horiz-cosine', 'beside-truncated',
+                    add('horiz-cosine', rc['cls'],
                         'connection %r beside a truncated block (dz = %r): cosine %r, exact %r'
                         % (names, rc['dz'], lc, rc['cos']))
     if stats is not None:
@@ -638,7 +660,7 @@ def eval_case(ctx, atm, order, angle, bmkind, sidx, stats=None, route='direct'):
     out = []
 
     def add(clause, cls, what):
-        sig = 'C04|fromgeo|%s|%s' % (clause, cls)
+        sig = 'C04|fromgeo|%s|%s%s' % (clause, cls, ctx.centreclass)
         if not any(o[0] == sig for o in out):
             out.append((sig, what))
 
@@ -914,6 +936,23 @@ def units(tier):
         for naming in (LIBN if thorough else (('lib0',) if desc[3] < 4 else ())):
             us.append(U(desc, naming, 'id', 'k1', orders=ALL_ORD if thorough else (None,), angles=(0.0,),
                         bmaps=('none', 'full') if thorough else ('none',), routes=ROUTES))
+        # an exact 0.0 as a legal elevation: at the top, inside a layer, on a layer boundary, above the top layer;
+        # surfaces 0.0 and -0.0 join the alphabet
+        if thorough or desc[3] < 4:
+            for z0 in Z0S:
+                for naming in (('lib0', 'lib2') if thorough else ('lib0',)):
+                    us.append(U(desc + (z0,), naming, 'id', 'k2z' if thorough else 'k1z',
+                                orders=ALL_ORD if thorough else (None,), angles=(0.0,),
+                                bmaps=('none', 'full') if thorough else ('none',)))
+        # layer centres off the mid-point: one layer, all layers; set in memory, and written and read back
+        if thorough or desc[3] < 4:
+            for cm in (CENTRES if thorough else ('off1', 'offall')):
+                if cm != 'offall' and int(cm[3:]) > desc[3]:
+                    continue
+                for atm in ALL_ATM:
+                    us.append(U(desc, 'lib0', cm, 'k1', atms=(atm,), orders=(None,), angles=(0.0,),
+                                bmaps=('none', 'full') if thorough else ('none',),
+                                routes=('direct', 'file%d' % atm) + (('atm%d' % ((atm + 1) % 3),) if thorough else ())))
         # histories on one object: convert, edit, convert again
         for naming in (('lib0', 'lib3') if thorough else (('lib0',) if desc[3] < 4 else ())):
             for atm in ALL_ATM:
@@ -939,6 +978,14 @@ def units(tier):
             if thorough or naming == 'c0' or (naming == 'c1' and desc != ('mixr',)):
                 us.append(U(desc, naming, 'id', 'k1', orders=ALL_ORD if thorough else (None,), angles=(0.0,),
                             bmaps=('none', 'full') if thorough else ('none',), routes=ROUTES))
+        for cm in (CENTRES if thorough else ('off2', 'offall')):
+            for atm in ALL_ATM:
+                us.append(U(desc, 'c0', cm, 'k1', atms=(atm,), orders=(None,), angles=(0.0,),
+                            bmaps=('none', 'full') if thorough else ('none',), routes=('direct', 'file%d' % atm)))
+        if desc != ('mixr',):
+            dz = -8.0 if desc == ('mix',) else -3.0          # 0.0 falls inside layer 2
+            us.append(U(desc + (dz,), 'c0', 'id', 'k2z' if thorough else 'k1z', orders=(None,), angles=(0.0,),
+                        bmaps=('none', 'full') if thorough else ('none',)))
         for naming in (('c0', 'c3') if thorough else ('c0',)):
             for atm in ALL_ATM:
                 us.append(dict(U(desc, naming, 'id', 'hist', atms=(atm,), orders=ALL_ORD if thorough else (None,),
@@ -1016,7 +1063,7 @@ def run_unit(unit, tier, rec):
         rec.count('units', 1)
         rec.count('units_%s' % desc[0], 1)
         return
-    ssets = surface_sets(unit['surf'], ctx.ncol, ctx.pairs)
+    ssets = surface_sets(unit['surf'], ctx.ncol, ctx.pairs, len(ctx.alphabet))
     if 'chunk' in unit:
         k, n = unit['chunk']
         ssets = ssets[k::n]
@@ -1064,6 +1111,9 @@ def finalize(rec, tier):
         'transforms (rot90, rot30, shift, tiltx, tilty)': 'crossed with the options, surfaces k <= 1 '
                                                           '(base surface on g7 and refinements)',
         'shipped geometries as read': 'g1..g7 (also rotated 30, shifted, tilted)' if tier == 'thorough' else 'g1, g5, g7',
+        'absolute placement': 'an exact 0.0 at the top / inside a layer / on a layer boundary / above the top layer, with 0.0 '
+        'and -0.0 as surface values',
+        'layer centres': 'mid-point | one layer off the mid-point | all layers off; in memory and read from a file',
         'history on one object (convert, one edit, convert again; second grid judged)': 'every edit of the alphabet x '
         'atmosphere type x 2 surface assignments on the rectangular and hand-made meshes',
         'route to the final atmosphere type / block order / convention': 'direct | assigned from each other type | '
@@ -1094,6 +1144,11 @@ BOUNDS = {
               'transforms': 'nz = 3 shapes and the hand-made meshes, one convention, k <= 1',
               'routes': 'nz <= 3 shapes (convention 0), mix / tq (conventions 0, 1), mix refined (0): 8 routes x 3 atmosphere '
                         'types x k <= 1; g7 base surface',
+              'exact zero': 'nz <= 3 shapes x 6 vertical origins (0.0 at the top, inside layer 1, at its bottom, inside layer 2, '
+                            'at its bottom, above the top layer), mix / tq shifted so that 0.0 is inside layer 2: alphabet + {0.0, -0.0}, '
+                            'k <= 1 and every uniform assignment, 3 atmosphere types',
+              'layer centres': 'nz <= 3 shapes, mix / tq / mix refined: centre = bottom + 0.4 thickness in layer 1 (2 on the hand-made '
+                               'meshes) or in all layers, set in memory and written / read back, k <= 1, 3 atmosphere types',
               'histories': 'nz <= 3 shapes and mix / tq / mix refined, convention 0: every edit of the alphabet (each quad x node '
                            'split, each column centre, each node, rotate, translate, each column x 2 surfaces, snap, each column '
                            'refined, none) x 3 atmosphere types x 2 surface assignments',
@@ -1106,6 +1161,10 @@ BOUNDS = {
                  'transforms': 'every shape x 4 conventions x all options, k <= 1',
                  'routes': 'every rectangular shape x 4 conventions, mix / tq / mix refined x 4 conventions: 8 routes x 3 atmosphere '
                            'types x {None, dmplex} x {no map, full} x k <= 1; g7 base surface',
+                 'exact zero': 'every shape x 6 vertical origins x conventions 0, 2 x {None, dmplex} x {no map, full}; alphabet + {0.0, -0.0}, '
+                               'k <= 2 and every uniform assignment',
+                 'layer centres': 'every shape and hand-made mesh: each single layer and all layers off the mid-point, in memory, '
+                                  'written / read back, and with the atmosphere type assigned afterwards; k <= 1',
                  'histories': 'every shape and hand-made mesh, conventions 0 and 3: every edit x 3 atmosphere types x {None, dmplex} x '
                               '{no map, full map} x 2 surface assignments, angle 30',
                  'irregular': 'mix k <= 2, tq 6^4, mix refined connected pairs, under every option; g7: base under every option and '
